@@ -217,6 +217,7 @@ def check(run):
         C05.loop(R)              # byte once, and keeps its state between fragments and reads
     from . import C06
     with R.as_rule('C01.dispatch'):
+        C04.closecodes(R)        # a Close with a valid code (1012, 1013, 3000-4999 included) is delivered, not refused
         C05.strict(R)            # Text.text / Close.reason are the strict UTF-8 decode of the whole payload
     with R.as_rule('C01.join'):
         C06.wiring(R)            # the decompressor arm of the join: contexts are kept / reset as negotiated
@@ -712,7 +713,8 @@ def join(R):
     f = R.func(q)
     frames = f.params[1]
     defs = [n for n in g.live_nodes() if n.kind == 'stmt' and isinstance(n.ast, ast.Assign) and U(n.ast.targets[0]) == 'payload']
-    need(len(defs) == 2, 'Message.build: expected two definitions of the payload (inflate / join), found %d' % len(defs))
+    need(len(defs) >= 2, 'Message.build: expected two definitions of the payload (inflate / join), found %d' % len(defs))
+    # (every definition is judged: a third arm that hands out frame.payload itself - a bytearray - is not a join)
     for d in defs:
         v = d.ast.value
         if isinstance(v, ast.Call) and R.types.resolves_to(v, g.ctx, 'message.Message.decompress_frames'):
